@@ -378,13 +378,17 @@ def gen_bdesign(r, size=2):
                     tw = l[1] * x["n"] if x["n"] > 0 and r.random() < 0.35 else l[1]
                     if tw != l[1]:
                         design["marks"].append("array_anon_per_element")
-                    members.append([l[0], sexpr(tw)])
+                    srefs = [["ref", y["name"], q] for y in single if y is not x for q, qw in target_sports(design, y["of"]) if qw == tw]
+                    if x["n"] == 0 and not x["pair"] and srefs and r.random() < 0.2:
+                        members.append([l[0], r.choice(srefs)])      # a scalar port of a sibling instance as a member
+                    else:
+                        members.append([l[0], sexpr(tw)])
                 for s in defs[k]["subs"]:
                     members.append([s[0], bconn(x, s[1], top_level=False)])
                 r.shuffle(members)
                 how = r.choice(["kw", "dict", "bundlize", "add"]) if top_level else r.choice(["kw", "bundlize", "add"])
                 return ["anon", members, how]
-            if not plain and refs and u < 0.45:
+            if not plain and refs and (u < 0.45 or (not top_level and u < 0.75)):
                 return r.choice(refs)
             if src and (plain or r.random() < 0.85):
                 return r.choice(src)
